@@ -324,6 +324,20 @@ def e2e(rep, tier, seed):
             for w in ("100", "40"):
                 cases.append({"text": text, "config": [["max_width", w], ["edition", "2024"]], "again": False, "lex": False})
                 meta.append(("synth/f%d.%s" % (fi, ctx), "item_" + ctx, sp, w, marked))
+    # skip-marked SUB-expressions (not statements): initialiser, call argument, closure body, struct-literal value,
+    # match scrutinee, return operand -- the attribute and the expression must both be copied
+    ugly = ["( a+b*c )", "call( x,y )", "[ 1,2 ,3 ]", "( p , q )", "S{f:1,g:2}", "x .y( ) .z", "if c {1} else {2}", "& mut * r", "v [ i ]", "m ! ( a,b )"]
+    for ei, e in enumerate(ugly):
+        sp = SPELLINGS[ei % len(SPELLINGS)]
+        marked = sp + " " + e
+        ctxs = {"init": "fn host() {\n    let  v  = %s;\n}\n", "arg": "fn host() {\n    target(first,   %s,  last);\n}\n", "closure": "fn host() {\n    let  k  = | q |   %s;\n}\n",
+                "field_value": "fn host() {\n    let  s = T { field:   %s, other:1 };\n}\n", "scrutinee": "fn host() {\n    match   %s  { _ => 0 }\n}\n", "ret": "fn host() -> R {\n    return   %s;\n}\n"}
+        for cname, tmpl in ctxs.items():
+            if cname == "scrutinee" and e.startswith("S{"):
+                continue
+            for w in ("100", "40"):
+                cases.append({"text": tmpl % marked, "config": [["max_width", w], ["edition", "2024"]], "again": False, "lex": False})
+                meta.append(("synth/e%d.%s" % (ei, cname), "expr_" + cname, sp, w, marked))
     res = common.run_vh_pool("pool", cases, per_case_timeout=15)
     n = found = 0
     per_kind = {}
@@ -339,7 +353,7 @@ def e2e(rep, tier, seed):
                 found += 1
     rep.coverage["e2e_skip_injections_judged"] = n
     rep.coverage["e2e_per_kind"] = per_kind
-    rep.coverage["e2e_rule"] = "pool source programs (thorough: all; quick: the 1/%d selected by the seed) x up to 2 nodes of each kind %s x 4 spellings (rotating) x max_width {100, 40}: the node's source bytes must occur verbatim in the output; plus ~45 item forms (out-of-line mod / use / extern crate declarations included), skip-marked, at top level, inside an inline module and as an item statement of a function body" % (MOD, KINDS)
+    rep.coverage["e2e_rule"] = "pool source programs (thorough: all; quick: the 1/%d selected by the seed) x up to 2 nodes of each kind %s x 4 spellings (rotating) x max_width {100, 40}: the node's source bytes must occur verbatim in the output; plus ~45 item forms (out-of-line mod / use / extern crate declarations included), skip-marked, at top level, inside an inline module and as an item statement of a function body; and 10 badly spaced sub-expressions, skip-marked, as initialiser / call argument / closure body / struct-literal value / match scrutinee / return operand" % (MOD, KINDS)
     found += whole_file(rep)
     return found
 
